@@ -232,9 +232,25 @@ func TestC19_BurnLocksAndAdvancesNonce(t *testing.T) {
 			if rapid.IntRange(0, 5).Draw(t, "newBlock") == 0 {
 				h.NextBlock(1, 3)
 			}
+			if rapid.IntRange(0, 9).Draw(t, "changeMinimum") == 6 {
+				// the owner changes the bridge's minimum amounts in the middle of the history (min_burn and min_mint apart)
+				f := map[string]string{
+					"min_burn": rapid.SampledFrom([]string{"5", "1", "0.5", "20"}).Draw(t, "minBurn"),
+					"min_mint": rapid.SampledFrom([]string{"1", "0.1", "7"}).Draw(t, "minMint"),
+					"min_stake": "1", // the shipped min_stake 0 fails the contract's own validation of any update
+				}
+				if o, err := h.Do(b.UpdateGlobalConfig(s.Owner, f)); err != nil {
+					t.Fatalf("%s", err.Error())
+				} else if !o.Failed && !o.Rejected {
+					if conf, err = simzcn.Config(s, h.Cur.B); err != nil {
+						t.Fatalf("VERIF-HARNESS-ERROR %v", err)
+					}
+					st.Class("minimum_changed_mid_history")
+				}
+			}
 			cl := s.Clients[rapid.IntRange(0, 3).Draw(t, "client")]
 			bal := sim.ViewOf(h.Cur.B).Balance(cl.ID)
-			value := currency.Coin(rapid.SampledFrom([]uint64{0, conf.MinBurn - 1, conf.MinBurn, conf.MinBurn + 1, 123456789012, bal / 2, bal + 1}).Draw(t, "value"))
+			value := currency.Coin(rapid.SampledFrom([]uint64{0, conf.MinBurn - 1, conf.MinBurn, conf.MinBurn + 1, 123456789012, bal / 2, bal + 1, conf.MinBurn / 2, 10000000000}).Draw(t, "value"))
 			addr := ""
 			if rapid.IntRange(0, 6).Draw(t, "noAddress") != 0 {
 				addr = addrs[rapid.IntRange(0, len(addrs)-1).Draw(t, "addr")]
